@@ -578,3 +578,67 @@ def r_attrbreak(P, chk):
                                   "in the text puts a `<` into the attribute" % (f.name, f.src(c["c"][2])[:50], lit[-30:]))
     chk.floor(rid, n, 10, "string-printer calls with line breaks enabled")
     chk.floor(rid, n_ctx, 6, "of which with a literal context")
+
+
+# ---------------------------------------------------------------------------
+# R-ERASEGUARD (C08 / C04): markup already written is taken back only after it has been looked at
+
+def r_eraseguard(P, chk):
+    """A writer that erases the last n bytes of its output (to take back a `<p>` or a trailing `<text:tab/>`) must have compared
+    exactly those n bytes with the n-byte literal it means to remove, on the path to the erase: otherwise, in a context where
+    something else was written last (a `<th>`), it cuts a tag in half."""
+    from .prog import resolve_key, edpe_blocks
+    from .rules_mem import _fold, _string_of
+    rid = "R-ERASEGUARD"
+    chk.rule(rid, "in the writers, d_string_erase of the last n bytes of the output runs only where a str(n)cmp of exactly those n "
+                  "bytes with an n-byte literal has just succeeded (decided by path condition)")
+    n = 0
+    for f in P.all_funcs:
+        if not P.first_party(f) or f.unit.base not in set(XML_UNITS) | {"latex.c", "beamer.c", "memoir.c", "writer.c"}:
+            continue
+        pos = f.cfg.positions()
+        for c in f.calls("d_string_erase"):
+            d = key(c["c"][1])
+            cnt = const_value(c["c"][3])
+            if cnt is None:
+                try:
+                    cnt = int(_fold(resolve_key(f, c["c"][3])))
+                except ValueError:
+                    cnt = None
+            posk = _fold(resolve_key(f, c["c"][2]))
+            if cnt is None or posk != "%s->currentStringLength-%d" % (d, cnt):
+                continue          # not a fixed-length suffix erase
+            n += 1
+            want = "&%s->str[%s->currentStringLength-%d]" % (d, d, cnt)
+            guards = []
+            for y in f.walk():
+                if y["k"] == "CallExpr" and y.get("callee") in ("strcmp", "strncmp") and len(y["c"]) >= 3:
+                    ks = [_fold(resolve_key(f, q)) for q in y["c"][1:3]]
+                    for i2 in (0, 1):
+                        if ks[i2] == want:
+                            lit = _string_of(P, f, y["c"][1:3][1 - i2])
+                            if lit is not None and len(lit) == cnt and (y["callee"] == "strcmp" or const_value(y["c"][3]) == cnt):
+                                guards.append(y)
+            ok = False
+            for g in guards:
+                # with the comparison decided "different" (non-zero) the erase must be unreachable
+                def decide(t_, gid=g.get("i")):
+                    t2 = strip(t_)
+                    if t2 is None:
+                        return None
+                    if t2.get("i") == gid:
+                        return True            # non-zero: the bytes differ
+                    if t2["k"] == "BinaryOperator" and t2["op"] in ("==", "!=") and const_value(t2["c"][1]) == 0 and \
+                            (strip(t2["c"][0]) or {}).get("i") == gid:
+                        return t2["op"] == "!="
+                    return None
+                blocks = edpe_blocks(f, "?none", 0, extra_decide=decide)
+                if c.get("i") in pos and pos[c["i"]][0] not in blocks:
+                    ok = True
+            chk.obligation(rid, "%s %s: the last %d bytes of %s are erased only after they compared equal to a literal" % (f.where(c), f.name, cnt, d), ok)
+            if not ok:
+                chk.violation(rid, "eraseguard:%s:%s:%d" % (f.base, f.name, cnt), f.where(c),
+                              "%s erases the last %d bytes of `%s` without having compared them with the text it means to take back: "
+                              "where something else was written last (e.g. a `<th>` instead of `<p>`) it cuts that markup in half" % (
+                                  f.name, cnt, d))
+    chk.floor(rid, n, 2, "fixed-length suffix erasures in the writers")
